@@ -67,7 +67,7 @@ def main():
                 "pinned tests; its `demo.py` passes on the unchanged library and fails with the change (confirmed by "
                 "`tools/eval_seed.py`).  `caught by` lists the quick checks that exit 1 with a VIOLATION line on the changed tree; "
                 "`silent` the other checks that were run against it (runs of the non-target checks may predate later strengthening of those checks; "
-                "the target check of every seed was re-run with the final machinery).  `S-` = first wave, `S2-` = second wave, whose authors "
+                "the target check of every seed was re-run with the final machinery).  `S-` = first wave, `S2-` … `S5-` = later waves, whose authors "
                 "were also told which ideas had been used already.\n\n"
                 "| seed | target | change | caught by | silent (of those run) |\n|---|---|---|---|---|\n")
         for seed, target, first_line, caught, silent, ok in rows:
